@@ -397,6 +397,19 @@ def mutants(decls, rng):
                 nd = d.copy()
                 nd.lines.insert(j, "  undeclared_%d := 1;" % j)
                 out.append(("P0015", "assignment to an undeclared variable before line %d of %s" % (j, d.name), with_decl(i, nd)))
+            # an undeclared variable as the condition of an ELSIF / WHILE / UNTIL that follows an assignment to a variable of an
+            # enumeration type (what the statement before leaves behind must not decide how the condition's name is read)
+            en = next((x for x in decls if x.kind == "type" and x.info.get("tkind") == "enum"), None)
+            if en is not None and d.kind != "function":
+                val = en.info["values"][-1]
+                forms = [("ELSIF", ["  IF FALSE THEN", "    e_tmp_q := %s;" % val, "  ELSIF undeclared_c THEN", "    e_tmp_q := %s;" % val, "  END_IF;"]),
+                         ("WHILE", ["  e_tmp_q := %s;" % val, "  WHILE undeclared_c DO", "    e_tmp_q := %s;" % val, "  END_WHILE;"]),
+                         ("UNTIL", ["  REPEAT", "    e_tmp_q := %s;" % val, "  UNTIL undeclared_c END_REPEAT;"])]
+                kw_, body_ = forms[rng.randrange(len(forms))]
+                nd = d.copy()
+                nd.lines[end:end] = body_
+                nd.lines[bs:bs] = ["VAR", "  e_tmp_q : %s := %s;" % (en.name, en.info["values"][0]), "END_VAR"]
+                out.append(("P0015", "undeclared variable as the %s condition after an enumeration assignment in %s" % (kw_, d.name), with_decl(i, nd)))
             # the name of a function declared elsewhere, used as if it were a variable of this POU
             for x in decls:
                 if x.kind == "function" and x is not d and d.kind != "function":
